@@ -8,6 +8,11 @@ chunk_token_sequences_by_slices, on a reduced but structured input family and ev
   4. ONE module object per group reused for calls with other N / T / R and lengths given or omitted
   5. contents beyond in_lens / ref_lens are garbage (negative, huge, non-finite, or plausible)
   6. one larger instance
+ 14. object lifecycle: deepcopy / pickle / torch.save / copy after use / copy in eval mode / load_state_dict of a
+     same-configuration state dict into a fresh and into a used module / .double().float() of both modules for
+     every option combination (falsy ones included: valid_only False, lobe_size 0, partial / retain False) must
+     behave like a fresh object of the same configuration; a state dict loaded into a module of ANOTHER
+     configuration must leave one of the two configurations as a whole, never a mixture
 Every call is also compared with the oracle.
 """
 
@@ -19,7 +24,7 @@ import torch
 import pydrobert.torch.functional as F
 import pydrobert.torch.modules as M
 
-from mc.guards import Unchanged, Kept, GuardViolation
+from mc.guards import Unchanged, Kept, GuardViolation, lifecycle_variants
 from mc.oracles import slicing as O
 
 HUGE = 2 ** 62
@@ -261,6 +266,110 @@ def _slicer_group(ctx, call, seed):
             kept_mod = kept
         frames = lens if policy != "ref" else others
         C._judge_rows(ctx, sig0, vcase, exp, frames, v, slices, sources, middle=middle, max_outcomes=50)
+    _slicer_lifecycle(ctx, call, seed, base)
+
+
+# ============================================================================== lifecycle
+LIFECYCLE_KINDS = ("deepcopy", "pickle", "torch.save", "used+deepcopy", "eval+deepcopy", "state_dict",
+                   "state_dict-after-use", "double-float", "state_dict-into-other")
+
+
+def _lifecycle(ctx, sig0, case, make, used, make_other, run, same_as):
+    """run(obj) -> observed (python) or raises; same_as(observed) -> 'make' / 'other' / None."""
+    for kind in LIFECYCLE_KINDS:
+        vcase = dict(case, variant="lifecycle:" + kind)
+        it = lifecycle_variants(make, used, [kind], make_other)
+        while True:
+            try:
+                name, obj = next(it)
+            except StopIteration:
+                break
+            except Exception as e:  # the lifecycle operation itself failed
+                ctx.case(1, 1)
+                ctx.violation(dict(sig0, symptom="lifecycle-operation-raises", variant=kind, type=type(e).__name__),
+                              vcase, {"error": f"{type(e).__name__}: {str(e)[-300:]}"})
+                break
+            ctx.case(1, 1)
+            ctx.count("lifecycle_variants")
+            try:
+                obs = run(obj)
+            except Exception as e:
+                ctx.violation(dict(sig0, symptom="raises", variant="lifecycle:" + name, type=type(e).__name__), vcase,
+                              {"error": f"{type(e).__name__}: {str(e)[-300:]}"})
+                continue
+            verdict = same_as(obs)
+            ok = verdict == "make" or (name == "state_dict-into-other" and verdict == "other")
+            if name == "state_dict-into-other" and ok:
+                ctx.count("state_dict_into_other_keeps_" + ("loaded" if verdict == "make" else "own") + "_configuration")
+            if not ok:
+                ctx.violation(dict(sig0, symptom="lifecycle-variant-differs-from-fresh-object", variant=name), vcase,
+                              {"behaves_like": verdict or "neither configuration as a whole",
+                               "observed_head": obs[:2] if isinstance(obs, (list, tuple)) else None})
+
+
+def _slicer_lifecycle(ctx, call, seed, base):
+    from checks import c10 as C
+
+    policy = call["policy"]
+    wt, v, l = call["cfg"]
+    xs, lens, others, T = base
+    step = max(1, len(xs) // 500)
+    xs, lens = xs[::step], lens[::step]
+    others = None if others is None else others[::step]
+    x, il, ol = _slicer_tensors(policy, xs, lens, others, T)
+    owt = O.WINDOW_TYPES[(O.WINDOW_TYPES.index(wt) + 1) % 3]
+    other_cfg = (owt, not v, (l + 1) % 3)
+    exp = {"make": _slicer_expected(policy, xs, lens, others, wt, v, l),
+           "other": _slicer_expected(policy, xs, lens, others, *other_cfg)}
+
+    def run(m):
+        return C._unpack(m(x.clone(), il.clone(), None if ol is None else ol.clone()))
+
+    def same_as(obs):
+        rows, err = C._group(obs[0], obs[1], len(xs))
+        if err is None:
+            for who in ("make", "other"):
+                if all(O.admits(e, r) for e, r in zip(exp[who], rows)):
+                    return who
+        return None
+
+    sig0 = {"api": "SliceSpectData", "policy": policy, "window_type": wt, "valid_only": v, "lobe_pos": l > 0}
+    _lifecycle(ctx, sig0, {"part": "guard", "call": call, "seed": seed},
+               lambda: M.SliceSpectData(policy, wt, v, l), lambda m: run(m),
+               lambda: M.SliceSpectData(policy, *other_cfg), run, same_as)
+
+
+def _tok_lifecycle(ctx, call, seed, base):
+    partial, retain = call["partial"], call["retain"]
+    rows = base[::11]
+    N, R = len(rows), len(rows[0][0])
+    refs = torch.tensor([r[0] for r in rows], dtype=torch.long).view(N, R, 3)
+    slices = torch.tensor([[a, b] for _, _, a, b in rows], dtype=torch.long).view(N, 2)
+    ref_lens = torch.tensor([n for _, n, _, _ in rows], dtype=torch.long)
+    exp = {"make": [O.chunk_tokens(ref, n, a, b, partial, retain) for ref, n, a, b in rows],
+           "other": [O.chunk_tokens(ref, n, a, b, not partial, not retain) for ref, n, a, b in rows]}
+
+    def run(m):
+        chunked, clens = m(refs.clone(), slices.clone(), ref_lens.clone())
+        chunked, clens = chunked.tolist(), clens.tolist()
+        return [[tuple(t) for t in chunked[n][: clens[n]]] for n in range(N)]
+
+    def same_as(obs):
+        # the known finding F6 (boundaries + slice start) is judged elsewhere: compare kept tokens, and
+        # boundaries only up to the documented / observed shift convention of a fresh object
+        fresh = {"make": run(M.ChunkTokenSequencesBySlices(partial, retain)),
+                 "other": run(M.ChunkTokenSequencesBySlices(not partial, not retain))}
+        for who in ("make", "other"):
+            ids_ok = all([t[0] for t in o] == [t[0] for t in e]
+                         for o, e, (_, _, a, b) in zip(obs, exp[who], rows) if a < b)  # a >= b: degenerate slice
+            if obs == fresh[who] and ids_ok:
+                return who
+        return None
+
+    sig0 = {"api": "ChunkTokenSequencesBySlices", "partial": partial, "retain": retain}
+    _lifecycle(ctx, sig0, {"part": "guard", "call": call, "seed": seed},
+               lambda: M.ChunkTokenSequencesBySlices(partial, retain), lambda m: run(m),
+               lambda: M.ChunkTokenSequencesBySlices(not partial, not retain), run, same_as)
 
 
 # ================================================================================= tokens
@@ -417,3 +526,4 @@ def _tok_group(ctx, call, seed):
         ctx.case(N, nt)
         if N > 1:
             ctx.outcome(hash(tuple(lclens[:200])) & 0xFFFFFFFFFFFF)
+    _tok_lifecycle(ctx, call, seed, base)
